@@ -109,9 +109,11 @@ def handle (j : Json) : Json :=
   let declared := strs (getArr j "declared")
   let call0 := parseCall j
   -- the history: the case's own call, then one call per entry of "history" (the entry overrides the option fields)
-  let calls := call0 :: (getArr j "history").map (fun st => parseCall (j.mergeObj st))
+  let steps : List Step := ⟨false, call0⟩ ::
+    (getArr j "history").map (fun st => ⟨getStr st "reuse" == "sibling", parseCall (j.mergeObj st)⟩)
+  let calls := steps.map (·.call)
   let dfun : String → Bool := fun s => declared.contains s
-  let outs := validateHistory op dfun calls
+  let outs := validateSteps op dfun steps
   let o : Opts := call0.opts
   let env : Env := call0.env dfun
   let res := (outs.head?.getD (.stuck, [])).1
@@ -119,8 +121,8 @@ def handle (j : Json) : Json :=
   let histModel := (outs.drop 1).map (fun r => jobj [("ok", Json.bool r.1.isOk), ("shape", Json.str (shapeStr r.1)),
                     ("parts", jstrs (r.1.parts.map partStr)),
                     ("authLog", jstrs (r.2.map (fun c => callKey c.scheme c.scopes)))])
-  let histSpec := (calls.drop 1).map (fun c => jobj [("accept", Json.bool (acceptB c.opts op (c.env dfun))),
-                   ("failing", jstrs ((failingSpec c.opts op (c.env dfun)).map partStr))])
+  let histSpec := (steps.drop 1).map (fun s => jobj [("accept", Json.bool (acceptB s.call.opts (s.op op) (s.call.env dfun))),
+                   ("failing", jstrs ((failingSpec s.call.opts (s.op op) (s.call.env dfun)).map partStr))])
   let histDiffer := (outs.drop 1).any (fun r => r.1.parts != res.parts || r.1.isOk != res.isOk)
   let allParams := op.pathParams ++ opList op
   let allFacts := ((getArr j "pathParams") ++ (getArr j "opParams")).map parseFacts
@@ -171,6 +173,8 @@ def handle (j : Json) : Json :=
     (if (getArr j "history").any (fun st => getStr st "reuse" == "input") then ["hist.reuse.input"] else []) ++
     (if (getArr j "history").any (fun st => getStr st "reuse" == "request") then ["hist.reuse.request"] else []) ++
     (if (getArr j "history").any (fun st => getStr st "reuse" == "doc") then ["hist.reuse.doc"] else []) ++
+    (if steps.any (·.onSibling) then ["hist.sibling"] else []) ++
+    (if steps.any (·.onSibling) && op.pathParams.any (overridden (opList op)) then ["hist.sibling.override"] else []) ++
     (if (getArr j "history").any (fun st => getStr st "optsHow" == "mutate") then ["hist.opts.mutate"] else []) ++
     (if getStr j "undeclaredHow" != "" then ["sec.undeclared." ++ getStr j "undeclaredHow"] else []) ++
     (if ((getArr j "pathParams") ++ (getArr j "opParams")).any (fun p => getBool p "ref") then ["param.ref"] else [])
